@@ -89,7 +89,7 @@ impl Property for C10 {
         }
     }
     fn rule(&self) -> &'static str {
-        "per run: TAP image of 0..6 blocks (lengths from {0,1,2,17..20,126..131,254..259,1000,6912,random<=20000}, flag 0x00/0xFF/random, checksum right or wrong), delivered by a chunking asset (short reads only), then 1..8 LD-BYTES requests (A matching or not, LOAD/VERIFY, IX anywhere incl. ROM, screen and 0xFFF0 wrap, DE from the same length set incl. 0 and D=0xFF, VERIFY against pre-stored or foreign bytes), continuing past the end of the tape; both machines (128K with the 48K BASIC ROM paged in by a seeded paging history: any bank at 0xC000, via ROM 0, locked, locked followed by ignored writes, paging writes between requests); distinct = (block-length class, DE vs block length relation, LOAD/VERIFY, flag match, outcome)"
+        "per run: TAP image of 0..6 blocks (lengths from {0,1,2,17..20,126..131,254..259,1000,6912,random<=20000}, flag 0x00/0xFF/random, checksum right or wrong), delivered by a chunking asset (short reads only), then 1..8 LD-BYTES requests (A matching or not, LOAD/VERIFY, IX anywhere incl. ROM, screen and 0xFFF0 wrap, DE from the same length set incl. 0 and D=0xFF, VERIFY against pre-stored or foreign bytes), continuing past the end of the tape, the host rewinding the deck between requests (also after the end was hit); both machines (128K with the 48K BASIC ROM paged in by a seeded paging history: any bank at 0xC000, via ROM 0, locked, locked followed by ignored writes, paging writes between requests); distinct = (block-length class, DE vs block length relation, LOAD/VERIFY, flag match, outcome)"
     }
     fn state_measure(&self) -> &'static str {
         "distinct (blocks left on tape, outcome: success / flag mismatch / parity error / short block / verify mismatch / no block) pairs"
@@ -108,7 +108,7 @@ impl Property for C10 {
         ]
     }
     fn expected_probes(&self) -> Vec<&'static str> {
-        vec!["success", "flag_mismatch", "parity_error", "short_block", "long_block", "verify_ok", "verify_mismatch", "past_end", "de_zero", "d_is_ff", "ix_wraps", "ix_in_rom", "block_crosses_128", "empty_block", "paging_locked_then_ignored_write"]
+        vec!["success", "flag_mismatch", "parity_error", "short_block", "long_block", "verify_ok", "verify_mismatch", "past_end", "de_zero", "d_is_ff", "ix_wraps", "ix_in_rom", "block_crosses_128", "empty_block", "paging_locked_then_ignored_write", "rewind_between_requests", "rewind_after_end_of_tape"]
     }
 
     fn gen(&self, rng: &mut Rng, _tier: Tier, _idx: u64) -> Scenario {
@@ -123,12 +123,19 @@ impl Property for C10 {
         sc.set("pg_bank", rng.range(0, 7));
         sc.set("pg_ignored", rng.range(0, 255));
         let pg_between = rng.chance(1, 3);
+        let rewinds = rng.chance(1, 3);
         let nb = rng.range(0, 6) as usize;
         let blocks: Vec<Vec<u8>> = (0..nb).map(|_| gen_block(rng)).collect();
         sc.push(Op::blob("tape", &[], tape::make_tap(&blocks)));
         let nreq = rng.range(1, 8) as usize;
-        for i in 0..nreq {
-            let blk = blocks.get(i);
+        let mut cursor = 0usize;
+        for _ in 0..nreq {
+            if rewinds && rng.chance(1, 3) {
+                sc.op("rw", &[]);
+                cursor = 0;
+            }
+            let blk = blocks.get(cursor);
+            cursor += 1;
             let blen = blk.map(|b| b.len()).unwrap_or(0);
             let flag = blk.and_then(|b| b.first().copied()).unwrap_or(0xFF);
             let a = if rng.chance(4, 5) { flag } else { rng.u8() };
@@ -208,6 +215,17 @@ impl Property for C10 {
                     }
                     e.verif_bus().write_io(0x7FFD, if unlocked { v | 0x10 } else { v });
                 }
+                continue;
+            }
+            if op.k == "rw" {
+                // the host rewinds the (stopped) deck: the next request gets the first block again, also when
+                // an earlier request had run off the end of the tape
+                ctx.probe("rewind_between_requests");
+                if next_block >= blocks.len() {
+                    ctx.probe("rewind_after_end_of_tape");
+                }
+                e.rewind_tape().map_err(|x| Fail::new("C10.rewind", "", format!("{:?}", x)))?;
+                next_block = 0;
                 continue;
             }
             if op.k != "req" {
